@@ -118,6 +118,21 @@ fn real_main() -> i32 {
             println!("// cfg {cfg:?}\n// args {:?} shadowing {}\n{}", p.args, p.has_shadowing, if args.get(3).is_some() { &p.unique } else { &p.shadowed });
             0
         }
+        Some("kflip") => {
+            // diagnostic: the polarity-flipped sibling of a source file and whether the front end accepts it
+            let src = std::fs::read_to_string(args.get(2).map(|s| s.as_str()).unwrap_or("")).unwrap_or_default();
+            match enginek::flip_polarity_sibling(&src) {
+                Some(f) => {
+                    println!("{f}");
+                    match fun::parser::parse_module(&f).map_err(|e| format!("parse {e:?}")).and_then(|m| m.check().map_err(|e| format!("{e:?}"))) {
+                        Ok(_) => println!("// accepted"),
+                        Err(e) => println!("// REJECTED {e}"),
+                    }
+                }
+                None => println!("// no declarations"),
+            }
+            0
+        }
         Some("check") if args.len() >= 4 => orch::check(&args[2], &args[3]),
         Some("worker") if args.len() >= 7 => {
             let p = |i: usize| args[i].parse::<u64>().unwrap_or(0);
